@@ -65,7 +65,7 @@ var extraTypes = []string{
 	"@{~/b/foo}.G[@{~/a/foo}.T]", "Box[Box[@{~/a/foo}.T]]", "map[string]map[string][]*@{~/a/foo}.T",
 	"*@{net/http}.Request", "@{net/http}.ResponseWriter", "@{net/http}.Handler", "@{context}.Context", "[]@{context}.Context", "@{time}.Time", "@{~/dep/time}.T",
 	"@{~/x/sync}.T", "*@{sync}.Mutex", "@{~/names/s}.T", "@{~/names/err}.T", "@{~/names/mock}.T", "@{~/names/n}.T",
-	"String", "Int", "[]String", "Error", "*Error", "Append", "[]Append",
+	"String", "Int", "[]String", "Error", "*Error", "Append", "[]Append", "Panic", "Nil", "*Nil",
 	"@{~/b/foo}.G[@{~/b/foo}.G[Loc]]", "Box[Box[Loc]]", "map[@{~/b/foo}.T]@{~/b/foo}.G[*@{~/a/foo}.T]", "@{~/b/foo}.G[map[@{~/b/foo}.T][]@{~/a/foo}.T]", "map[string]@{~/b/foo}.G[[]Loc]",
 }
 
